@@ -155,6 +155,9 @@ func (d *restDriver) jobTOTP(c *ctx, tag string, probe bool, validate bool) job 
 	var ts int64
 	if explicit {
 		ts = 1 + c.rng.Int63n(1<<uint(8+c.rng.Intn(50)))
+		if c.rng.Intn(5) == 0 {
+			ts = []int64{1, 2, 29, 30, 31, 59, 60, 61}[c.rng.Intn(8)] // the smallest explicit instants
+		}
 		q.Timestamp = rfInt(ts)
 	} else if c.rng.Intn(2) == 0 {
 		q.Timestamp = rfInt([]int64{0, -5}[c.rng.Intn(2)]) // not positive: the server's clock is used
@@ -470,6 +473,30 @@ func restScenC18(d *restDriver, c *ctx) {
 				ev.Orc = allAlgWindow(key, step, margin)
 			}})
 		}
+	}
+	// the smallest explicit instants (1 is the first value that is "an instant" rather than "use the clock")
+	for i, ts := range []int64{1, 2, 29, 30, 31, 59, 60} {
+		key := c.randBytes(20)
+		sec := b32(key)
+		qt := newRReq()
+		qt.Secret, qt.Timestamp = rfStr(sec), rfInt(ts)
+		if i%2 == 0 {
+			qt.Period = rfNum(30)
+		}
+		step := uint64(ts) / 30
+		gt := d.do(seq, job{scn: fmt.Sprintf("C18/chain/tsmall/%d/gen", ts), method: "POST", path: "/totp/generate", cls: "typed", q: qt, fill: func(ev *restEvent) {
+			ev.Step0 = W64(step)
+			ev.Orc = allAlgWindow(key, step, 0)
+		}})
+		q2 := qt
+		q2.Code = rfStr(refHOTP(key, step, 6, 0))
+		if code, ok := gt.Resp["code"].(RF); ok && code.P && i%3 == 0 {
+			q2.Code = rfStr(string(code.S))
+		}
+		d.do(seq, job{scn: fmt.Sprintf("C18/chain/tsmall/%d/val", ts), method: "POST", path: "/totp/validate", cls: "typed", q: q2, fill: func(ev *restEvent) {
+			ev.Step0 = W64(step)
+			ev.Orc = allAlgWindow(key, step, margin)
+		}})
 	}
 	// concurrently: 4 kept-alive and 4 fresh-connection clients
 	var jobs []job
